@@ -163,7 +163,7 @@ class Lexer:
         "INLINE_COMMENT": (  # shopify style `{% # some comment %}`
             r"\{%(?P<ILC_WC0>[\-+~]?)\s*#(?P<ILC_TEXT>.*?)(?P<ILC_WC1>[\-+~]?)%\}"
         ),
-        "CONTENT": r".+?(?=(\{\{|\{%|\{#+|$))",
+        "CONTENT": r".+?(?=(\{\{|\{%|\{#+|\Z))",
     }
 
     WC_MAP = {
